@@ -36,9 +36,9 @@ CLAIM = dict(
     note="Trusted: Coq kernel; tools/gen/gen_cli_table.py (regex-level reader of table-like source fragments); the "
          "hand-written model Cli.v of the control flow of the four exec functions and of src/lib.rs, validated by "
          "correspondence; clap's argument matching is modelled by `accepts` and validated on the argv of every run; "
-         "wasmprinter/wat round trip, registry and file system are oracles. Findings (plug registration order depends "
-         "on the HashMap seed; `wac targets` default world counts interfaces; README shows --wit positionally; text on "
-         "stdout gets one extra newline) are reported as refuted/partial theorems and known-finding lines.",
+         "wasmprinter/wat round trip, registry and file system are oracles. Three findings of the first round were repaired (415d296 plug "
+         "registration order, 9a9d9f7 default world, 9cbb1bc README --wit); the extra newline of text sent to stdout "
+         "remains a known finding.",
     technique="Coq proof over generated tables + differential run of the real binary (vm_compute-evaluated model)")
 
 # Findings established while building this check (see the final report of the builder). The main session decides
